@@ -638,7 +638,21 @@ def execute(desc, ctx=None, mutate=False, seed=0):
         host = "boot%d" % rng.randrange(9)
         netw.add_host(host, lambda sock, addr, data: sent.append(
             bytes(data)) if addr[1] == 54321 else None)
-        bmc = mcm.MachineController(host)
+        own_structs = None
+        if rng.random() < .5:
+            # the caller's own dictionary of struct definitions (say, of the
+            # firmware it built): the controller may use it, not edit it
+            sf = imp("rig.machine_control.struct_file")
+            with open(bootm.pkg_resources.resource_filename(
+                    "rig", "boot/sark.struct"), "rb") as f_:
+                own_structs = sf.read_struct_file(f_.read())
+            own_structs.pop(b"vcpu", None)
+            own_structs[b"sv"].base += 0x100
+            own_before = (sorted(own_structs), own_structs[b"sv"].base,
+                          id(own_structs[b"sv"]))
+            bmc = mcm.MachineController(host, structs=own_structs)
+        else:
+            bmc = mcm.MachineController(host)
         bopts, bdict = {}, None
         if mutate:
             bopts = dict(getattr(bootm, rng.choice(
@@ -656,6 +670,14 @@ def execute(desc, ctx=None, mutate=False, seed=0):
             check(given == before, "argument-mutated",
                   "boot(): sv_overrides passed as %r is now %r" %
                   (before, given), call="boot")
+        if own_structs is not None and ctx is not None:
+            ctx.hit("argument_snapshot")
+            check((sorted(own_structs), own_structs[b"sv"].base,
+                   id(own_structs[b"sv"])) == own_before, "argument-modified",
+                  "boot() edited the structs dictionary the controller was "
+                  "made with: keys %r -> %r, sv base %#x -> %#x" %
+                  (own_before[0][:4], sorted(own_structs)[:4], own_before[1],
+                   own_structs[b"sv"].base), call="boot")
         area = bytearray(b"".join(c20.decode(d)[3] for d in sent[1:-1])
                          [384:512])
         for fld in ("unix_time", "boot_sig"):       # clock-dependent
